@@ -29,7 +29,8 @@ ASSUMPTIONS = ['the model of the final result: a value returned on the endpoint 
 
 ACCEPTS = [None, 'text/html', 'application/json', 'application/xml;q=0.9, */*;q=0.1']
 HANDLERS = ['default', 'debug', 'reraise', 'broken_render', 'other_error', 'broken_render_cls',
-            'mixed_plain_ctxerr', 'mixed_ctx_plaininfo', 'other_error_kwonly']
+            'mixed_plain_ctxerr', 'mixed_ctx_plaininfo', 'other_error_kwonly', 'render_returns_none', 'render_returns_str']
+# render_returns_*: a handler whose render_error does not return a response at all - as broken as one that raises
 # other_error_kwonly: the same handler as other_error, its render_error takes what it is given as keyword-only
 # parameters - the two must answer every request alike
 
@@ -194,6 +195,11 @@ class App(object):
                 def render_error(self, request, _error):
                     return errors.Forbidden('instead of %s' % _error.code)
             kw['error_handler'] = Other()
+        elif handler in ('render_returns_none', 'render_returns_str'):
+            class Useless(errors.ErrorHandler):
+                def render_error(self, request, _error):
+                    return None if handler == 'render_returns_none' else 'oops'
+            kw['error_handler'] = Useless()
         elif handler == 'other_error_kwonly':
             class OtherKw(errors.ErrorHandler):
                 def render_error(self, *, request, _error):
